@@ -6,6 +6,8 @@ namespace Drv
 
 def c08 (_inp obs : Json) : Res :=
   if jbool obs "hang" then { agree := false, specOk := false, why := "the concurrent requests did not all complete (blocked forever or livelock)" } else
+  if (match jget obs "leaked" with | .arr xs => !xs.isEmpty | _ => false) then
+    { agree := false, specOk := false, why := s!"a request finished while still holding {(jget obs "leaked").compress}: the next request that needs it never completes" } else
   if jbool obs "deadlock" then { agree := false, specOk := false, why := "deadlock: every unfinished request waits for a lock another one holds" } else
   let seq := jget obs "seq"
   let con := jget obs "con"
